@@ -108,6 +108,20 @@ def cases(tier, seed):
         for vec in ((False, True) if backend != 'fortran' else (False,)):
             out.append({'kind': 'traj', 'name': 'stiff', 'spec': STIFF, 'backend': backend, 'solver': 'scipy', 'vectorize': vec,
                         'prec': 'float64', 'loose': True})
+    # extrinsic input with recording every 3rd step (each backend's own step counter), and Population / Connectivity
+    # circuits with coupling edges (weighted sums over (target, source) pairs)
+    INP = {'ops': {'io': {'eqs': ["d/dt * x = -x + u"], 'vars': {'x': 'output(0.2)', 'u': 'input(0.0)'}}},
+           'node_tpls': {'I': [['io', {}]]}, 'edge_tpls': {}, 'share': True,
+           'circuit': {'name': 'net', 'nodes': {'a': 'I', 'b': 'I'}, 'edges': []}}
+    for backend in ('torch', 'jax', 'fortran'):
+        for solver in [s_ for s_ in solvers[backend] if s_ in ('euler', 'heun')]:
+            out.append({'kind': 'traj', 'name': 'input_sub3', 'spec': INP, 'backend': backend, 'solver': solver,
+                        'vectorize': backend != 'fortran', 'prec': 'float64', 'input': 'a/io/u', 'sub': 3})
+    for edge_kind in ('alg', 'dyn', None):
+        for W in ([[0.0, 2.0], [-0.5, 1.0]], [[1.0, 0.0], [3.0, 2.0]]):
+            out.append({'kind': 'pop', 'backend': 'jax', 'pops': {'e': 2, 'i': 2},
+                        'conns': [dict({'src': 'e', 'tgt': 'i', 'W': W}, **({'edge': edge_kind} if edge_kind else {})),
+                                  {'src': 'i', 'tgt': 'e', 'W': [[1.5, -0.5], [0.25, 2.0]]}]})
     # roll-based delay buffers (backends with a mutable buffer)
     for backend in ('torch', 'fortran'):
         for vec in ((False, True) if backend == 'torch' else (False,)):
@@ -149,6 +163,8 @@ def run_case(case):
         return r
     if case['kind'] == 'delay':
         return run_delay(case, res, sig, viol, fname)
+    if case['kind'] == 'pop':
+        return run_pop(case, res, sig, viol)
     # trajectories: same solver settings on the backend and on the default backend
     m = sp.refmodel(case['spec'])
     states = [p for p in m.state_vars() if not p.startswith('__e')]
@@ -159,6 +175,9 @@ def run_case(case):
         solver = case['solver'] if backend != 'default' or case['solver'] != 'diffrax' else 'scipy'
         kw = dict(simulation_time=8 * DT, step_size=DT, sampling_step_size=DT, outputs=dict(outs), solver=solver,
                   backend=backend, vectorize=case['vectorize'], verbose=False, float_precision='float64', clear=True)
+        if case.get('input'):
+            kw.update(simulation_time=12 * DT, sampling_step_size=case['sub'] * DT,
+                      inputs={case['input']: 0.05 * np.arange(12, dtype=float) ** 2 - 0.3 * np.arange(12) + 0.2})
         if case.get('loose'):
             kw.update(simulation_time=2.0, step_size=0.01, sampling_step_size=0.1)
         elif solver in ('scipy', 'diffrax'):
@@ -175,6 +194,30 @@ def run_case(case):
     res['evals'] = a.shape[0]
     if a.shape != b.shape or np.max(np.abs(a - b)) > tol * max(1.0, np.max(np.abs(b))):
         return viol('trajectory_differs', solver=case['solver'], got=a[:4].tolist(), expected=b[:4].tolist())
+    res['outcome'] = hashlib.sha256(b.round(8).tobytes()).hexdigest()[:10]
+    res['ok'] = True
+    return res
+
+
+def run_pop(case, res, sig, viol):
+    """Population / Connectivity circuit on the backend and on the default backend: euler trajectories of all units"""
+    from .. import pool
+    from . import C16
+    frames = {}
+    outs = {pop: f'{pop}/{C16.POPOP[pop][0]}/{C16.POPOP[pop][1]}' for pop in case['pops']}
+    for backend in (case['backend'], 'default'):
+        pool.fresh_state()
+        try:
+            frames[backend] = C16.build_pop(case).run(simulation_time=8 * DT, step_size=DT, sampling_step_size=DT,
+                                                      outputs=dict(outs), solver='euler', backend=backend, vectorize=True,
+                                                      verbose=False, float_precision='float64', clear=True)
+        except Exception as e:
+            sig['exc'] = type(e).__name__
+            return viol('raises', on=backend, detail=f'{type(e).__name__}: {e}'[:300])
+    a, b = np.asarray(frames[case['backend']].values, dtype=float), np.asarray(frames['default'].values, dtype=float)
+    res['evals'] = a.shape[0]
+    if a.shape != b.shape or np.max(np.abs(a - b)) > 1e-9 * max(1.0, np.max(np.abs(b))):
+        return viol('trajectory_differs', solver='euler', got=a[:4].tolist(), expected=b[:4].tolist())
     res['outcome'] = hashlib.sha256(b.round(8).tobytes()).hexdigest()[:10]
     res['ok'] = True
     return res
